@@ -110,6 +110,15 @@ Definition cls_empty_cell (L : list srcline) (f : fail) : bool :=
 Definition byte_at (L : list srcline) (ln c : N) : option byte :=
   if c =? 0 then None else
   match line_at L ln with Some l => nth_error (ln_body l) (N.to_nat (c - 1)) | None => None end.
+(* table_empty_cell, second shape: a childless cell reported as the single column of a pipe (the cell
+   has no text; the position of its delimiter is given instead) *)
+Definition cls_empty_cell_pipe (L : list srcline) (f : fail) : bool :=
+  match f_node f with
+  | Node TableCell sp [] =>
+    (sl sp =? el sp) && (sc sp =? ec sp) &&
+    match byte_at L (sl sp) (sc sp) with Some b => beqb b x7c | None => false end
+  | _ => false
+  end.
 Definition is_row (n : node) : bool := match nval n with TableRow _ => true | _ => false end.
 Definition is_table (n : node) : bool := match nval n with Table _ => true | _ => false end.
 Definition is_quote_n (n : node) : bool :=
@@ -297,7 +306,7 @@ Definition classes : list (string * (list srcline -> fail -> bool)) :=
     ("end_col_zero", cls_end_col_zero);
     ("mbq_unfinalized", cls_mbq);
     ("thematic_break_in_container", cls_hr);
-    ("table_empty_cell", cls_empty_cell);
+    ("table_empty_cell", fun L f => cls_empty_cell L f || cls_empty_cell_pipe L f);
     ("table_row_indent", cls_row_indent);
     ("table_escaped_pipe", cls_escaped_pipe);
     ("fenced_code_closed_by_container", cls_fence_container);
